@@ -1,9 +1,11 @@
 // (appended to the dedup spec) ---- sources of required key hashes
 impl TxInputsBuilder { pub uninterp spec fn signers(&self) -> Seq<Rc<Ed25519KeyHash>>; }
 impl MintBuilder {
-    pub uninterp spec fn native_signers(&self) -> Seq<Rc<Ed25519KeyHash>>;
+    /// the signers of every minting script, inline or supplied by reference input (per-source table: unit source_signers)
+    pub uninterp spec fn signers(&self) -> Seq<Rc<Ed25519KeyHash>>;
     pub uninterp spec fn scripts(&self) -> NativeScripts;
     #[verifier::external_body] pub fn get_native_scripts(&self) -> (r: NativeScripts) ensures r == self.scripts() { unimplemented!() }
+    #[verifier::external_body] pub fn get_required_signers(&self) -> (r: Ed25519KeyHashes) ensures r.wf(), r.keyhashes@ == self.signers() { unimplemented!() }
 }
 pub uninterp spec fn scripts_signers(s: NativeScripts) -> Seq<Rc<Ed25519KeyHash>>;
 impl WithdrawalsBuilder {
@@ -30,7 +32,7 @@ pub open spec fn needed_keys(b: TransactionBuilder) -> Set<Rc<Ed25519KeyHash>> {
     b.inputs.signers().to_set()
       + b.collateral.signers().to_set()
       + b.required_signers.keyhashes@.to_set()
-      + (match b.mint { Some(m) => scripts_signers(m.scripts()).to_set(), None => Set::empty() })
+      + (match b.mint { Some(m) => m.signers().to_set(), None => Set::empty() })
       + (match b.withdrawals { Some(w) => w.signers().to_set(), None => Set::empty() })
       + (match b.certs { Some(c) => c.signers().to_set(), None => Set::empty() })
       + (match b.voting_procedures { Some(v) => v.signers().to_set(), None => Set::empty() })
